@@ -144,7 +144,7 @@ def build_jobs(tier: str) -> list:
     n = 200 if tier == 'quick' else 1600
     lifetimes = [1, 2, 3, 5, 8, 13, 20, 30, 40] if tier == 'quick' else list(range(1, 41)) + [50, 75, 100]
     jobs = []
-    for tag, text, p in gen.grid(seed() * 31 + 2, n, resmodels=(4, 3) if tier == 'quick' else (4, 3, 4, 3, 1, 2), lifetimes=lifetimes,
+    for tag, text, p in gen.grid(seed() * 31 + 2, n, resmodels=(4, 3, 4, 3, 5) if tier == 'quick' else (4, 3, 4, 3, 1, 2, 5), lifetimes=lifetimes,
                                  with_extras=False):
         q = dict(p)
         if rng.random() < 0.25:
